@@ -5,10 +5,10 @@ open MosnVerif.Gen.ProxyPhase MosnVerif.Gen.ProxyReason MosnVerif.Gen.ProxyRetry
 
 /-- what `doRetry` leaves behind: new upstream request, new streams/ledger, trace, flags and timers -/
 def retried (s : S) (upv : Option (Option Nat)) (sts : List Stream) (rq ua : Int) (t : List Ev) (fn : List PoolFail)
-    (ur : Bool) (rr : Reason) (nt pt gt : Bool) (gg : Nat) : S :=
+    (ur : Bool) (rr : Reason) (nt pt gt : Bool) (gg : Nat) (go : Bool) : S :=
   { s with up := upv, setupRetry := false, streams := sts, requests := rq, upActive := ua, trace := t, failNext := fn,
            upReset := ur, resetReason := rr, notify := nt, perTry := pt, global := gt, reqSent := true, recvDone := true,
-           gtGen := gg }
+           gtGen := gg, gtObj := go }
 
 /-- facts the retry phase starts from -/
 structure RetryCtx (c : Cfg) (s : S) : Prop where
@@ -29,7 +29,8 @@ structure RetryCtx (c : Cfg) (s : S) : Prop where
   pd : s.procDone = false
   gl : s.reqSent = true → s.global = true ∨ s.globalExpired = true
 
-theorem retryCtx {c : Cfg} {ar aq : Nat} {s : S} (h : Inv c ar aq s) (hrun : s.running = true) (hp : s.phase = .Retry) :
+theorem retryCtx {c : Cfg} {ar aq : Nat} {s : S} (h : Inv c ar aq s) (hrun : s.running = true) (hp : s.phase = .Retry)
+    (hdir : s.direct = false) (hnexp : s.globalExpired = false) :
     RetryCtx c s := by
   have hcl := inv_not_cleaned h hrun
   have hfwd : fwdPhase s.phase = true := by simp [hp, fwdPhase]
@@ -40,11 +41,17 @@ theorem retryCtx {c : Cfg} {ar aq : Nat} {s : S} (h : Inv c ar aq s) (hrun : s.r
   have hm : s.up.isSome = true ∧ s.rs.isSome = true ∧ (s.globalExpired = true → s.urr = true) := by
     rcases h.k18 hcl hfwd with ⟨ho, _, _⟩ | hm
     · rw [how] at ho; cases ho
-    · exact ⟨hm.1, hm.2.1, hm.2.2.2.1⟩
+    · exact ⟨hm.1, hm.2.1, fun hh => by rw [hnexp] at hh; cases hh⟩
   have hlc := h.k23 hcl (Or.inr hp)
-  obtain ⟨hpt, hure, hurr, _hdet⟩ := h.k26 hcl hp
+  obtain ⟨hpt, hure0, hurr0, _hdet⟩ := h.k26 hcl hp
+  have hure : s.upReset = true → s.globalExpired = true := fun hh => (hure0 hh).1
+  have hurr : s.urr = true → s.upReset = true := by
+    intro hu
+    rcases hurr0 hu with h1 | h1 | h1
+    · exact h1
+    · rw [hdir] at h1; cases h1
+    · rw [hnexp] at h1; cases h1
   have hsr := (h.k7 hcl).1
-  have hdir : s.direct = false := not_direct_of_phase h.k7 hcl (by rw [hp]; decide)
   have hpd : s.procDone = false := by
     cases hh : s.procDone with
     | false => rfl
@@ -55,7 +62,7 @@ theorem retryCtx {c : Cfg} {ar aq : Nat} {s : S} (h : Inv c ar aq s) (hrun : s.r
 /-- the end of the retry phase for the state `retried …` -/
 theorem finish_retried (c : Cfg) (ar aq : Nat) (s : S) (h : Inv c ar aq s) (hrun : s.running = true) (hp : s.phase = .Retry)
     (x : RetryCtx c s) (upv : Option (Option Nat)) (sts : List Stream) (rq ua : Int) (t : List Ev) (fn : List PoolFail)
-    (ur : Bool) (rr : Reason) (nt pt gt : Bool) (gg : Nat)
+    (ur : Bool) (rr : Reason) (nt pt gt : Bool) (gg : Nat) (go : Bool)
     (hled : LedgerOk c aq { s with up := upv, streams := sts, requests := rq, upActive := ua })
     (h22 : liveAreCounted sts = true)
     (hups : upv.isSome = true)
@@ -65,9 +72,9 @@ theorem finish_retried (c : Cfg) (ar aq : Nat) (s : S) (h : Inv c ar aq s) (hrun
     (hntb : nt = true → ur = true ∨ s.downReset = true ∨ s.urr = true)
     (hlc : ur = true ∨ s.downReset = true → liveCount sts = 0)
     (hexp : ur = true → s.upReset = false → s.globalExpired = false) :
-    Inv c ar aq (finishPhase c (retried s upv sts rq ua t fn ur rr nt pt gt gg)) := by
+    Inv c ar aq (finishPhase c (retried s upv sts rq ua t fn ur rr nt pt gt gg go)) := by
   obtain ⟨hcl, how, hup, hrs, hlc0, hdead, hpt0, hure, hurr, hexp0, hps, hrst, hsr, hdir, hpd, hgl0⟩ := x
-  have hb1 : Base c ar aq (retried s upv sts rq ua t fn ur rr nt pt gt gg) := by
+  have hb1 : Base c ar aq (retried s upv sts rq ua t fn ur rr nt pt gt gg go) := by
     obtain ⟨k1, k2, k4, k9, k10, k11, k12, k13, k14, k20, k21, k22, k31⟩ := h.base
     refine ⟨?_, ?_, ?_, k9, hled.1, hled.2.1, k12, ?_, hled.2.2, ?_, ?_, ?_, ?_⟩
     · simpa [K1, retried, ht1] using k1
@@ -79,7 +86,7 @@ theorem finish_retried (c : Cfg) (ar aq : Nat) (s : S) (h : Inv c ar aq s) (hrun
     · intro ho; rw [how] at ho; cases ho
     · intro _; exact h22
     · intro _; exact hups
-  have h3' : K3 (retried s upv sts rq ua t fn ur rr nt pt gt gg) := by simpa [K3, retried, ht1] using h.k3
+  have h3' : K3 (retried s upv sts rq ua t fn ur rr nt pt gt gg go) := by simpa [K3, retried, ht1] using h.k3
   apply finish_plain c ar aq _ hb1 hrun hcl h3' h.k6 hpd rfl hdir
   · intro _; exact ⟨hps, hrst⟩
   · intro _ ho; rw [how] at ho; cases ho
@@ -170,31 +177,117 @@ theorem upAppendHeaders_ok (c : Cfg) (s : S) (eos : Bool) (hpd : processDone s =
 
 /-- the timers after `doRetry` -/
 def retryPt (c : Cfg) (s : S) : Bool := s.perTry || c.tryTimeout
-def retryGt (c : Cfg) (s : S) : Bool := if retryArmsGlobalWhenUnsent && !s.reqSent then true else s.global
-/-- the number of global timers armed so far after `doRetry`: one more exactly when the request had not been sent yet -/
-def retryGg (s : S) : Nat := if retryArmsGlobalWhenUnsent && !s.reqSent then s.gtGen + 1 else s.gtGen
+def retryGt (c : Cfg) (s : S) : Bool := if !(hasTimerObj s) then true else s.global
+/-- the number of global timers armed so far after `doRetry`: one more exactly when no timer object existed yet -/
+def retryGg (s : S) : Nat := if !(hasTimerObj s) then s.gtGen + 1 else s.gtGen
+/-- `s.responseTimer != nil` after `doRetry` -/
+def retryGo (s : S) : Bool := if !(hasTimerObj s) then true else s.gtObj
 
-/-- phase `Retry` -/
+/-- [proxy10] the wake-up with a pending local reply (an asynchronous `TerminateStream` was accepted during the back-off):
+`doRetry` returns at once, `processError` hands the reply to the response pass -/
+theorem inv_work_retry_direct (c : Cfg) (ar aq : Nat) (s : S) (h : Inv c ar aq s) (hrun : s.running = true)
+    (hp : s.phase = .Retry) (hdt : s.direct = true) : Inv c ar aq (finishPhase c s) := by
+  have hcl := inv_not_cleaned h hrun
+  have hfwd : fwdPhase s.phase = true := by simp [hp, fwdPhase]
+  have how : c.oneway = false := by
+    cases ho : c.oneway with
+    | false => rfl
+    | true => exact absurd hp (h.k32 hcl ho).2.2
+  have hrsome : s.rs.isSome = true := by
+    rcases h.k18 hcl hfwd with ⟨ho, _, _⟩ | hm
+    · rw [how] at ho; cases ho
+    · exact hm.2.1
+  have hpd : s.procDone = false := by
+    cases hh : s.procDone with
+    | false => rfl
+    | true => have := h.k5 hh; rw [hcl] at this; cases this
+  obtain ⟨_, _, _, tur, tresp, tlc, tpt, tgt⟩ := (h.k7 hcl).2 hdt
+  exact finish_direct_gen c ar aq s h.base hrun hcl how h.k3 h.k6 hpd (h.k7 hcl).1 hdt tur (h.k25 hcl how hrsome) tlc tresp tpt tgt
+    (h.k16 hcl (by simp [hp, upPhase])) (by rw [hp]; decide)
+
+/-- [proxy10] the wake-up after the global timeout expired while the retry was being set up, or during the back-off: `doRetry`
+raises the global timeout on the fresh upstream request (a no-op when the callback got through and raised it already),
+`processError` answers it — no retry: `setupRetry` refuses once the expiry is recorded -/
+theorem inv_work_retry_expired (c : Cfg) (ar aq : Nat) (s : S) (h : Inv c ar aq s) (hrun : s.running = true)
+    (hp : s.phase = .Retry) (hdir : s.direct = false) (hexp : s.globalExpired = true) :
+    Inv c ar aq (finishPhase c (upOnResetStream s .UpstreamGlobalTimeout)) := by
+  have hcl := inv_not_cleaned h hrun
+  have hfwd : fwdPhase s.phase = true := by simp [hp, fwdPhase]
+  have how : c.oneway = false := by
+    cases ho : c.oneway with
+    | false => rfl
+    | true => exact absurd hp (h.k32 hcl ho).2.2
+  have hsr := (h.k7 hcl).1
+  have hpd : s.procDone = false := by
+    cases hh : s.procDone with
+    | false => rfl
+    | true => have := h.k5 hh; rw [hcl] at this; cases this
+  have hrsome : s.rs.isSome = true := by
+    rcases h.k18 hcl hfwd with ⟨ho, _, _⟩ | hm
+    · rw [how] at ho; cases ho
+    · exact hm.2.1
+  have hlc := h.k23 hcl (Or.inr hp)
+  generalize hm : upOnResetStream s .UpstreamGlobalTimeout = m
+  have fm : m.cleaned = false ∧ m.running = true ∧ m.trace = s.trace ∧ m.respStarted = s.respStarted ∧ m.streams = s.streams ∧
+      m.requests = s.requests ∧ m.upActive = s.upActive ∧ m.up = s.up ∧ m.downActive = s.downActive ∧
+      m.upReset = true ∧ m.downReset = s.downReset ∧ m.downLive = s.downLive ∧ m.procDone = false ∧
+      m.setupRetry = false ∧ m.pass = s.pass ∧ m.direct = false ∧ m.phase = s.phase ∧
+      m.globalExpired = true ∧ m.rs = s.rs ∧ m.retries = s.retries ∧ m.perTry = s.perTry ∧ m.global = s.global := by
+    subst hm
+    simp [upOnResetStream, hcl, hrun, hpd, hsr, hdir, hexp]
+  obtain ⟨m_cl, m_run, m_tr, m_rst, m_st, m_rq, m_ua, m_up, m_da, m_ur, m_dr, m_dl, m_pd, m_sr, m_ps, m_dir, m_ph, m_ge, m_rs, m_ret, m_pt, m_gt⟩ := fm
+  have hrst : s.respStarted = false := h.k16 hcl (by simp [hp, upPhase])
+  have hps : s.pass = 0 := h.k25 hcl how hrsome
+  have hbm : Base c ar aq m := by
+    apply base_transfer c ar aq s m h.base m_cl (fun ho => by rw [how] at ho; cases ho) m_tr m_rst m_st m_rq m_ua m_up m_da hcl
+    · have h9 := h.k9
+      simp only [K9, heldRetry, rsHeld, m_rs, m_ret] at h9 ⊢
+      exact h9
+    · intro _; rw [m_up]; exact h.k31 hrsome
+  have h3m : K3 m := by simpa [K3, m_tr, m_cl, hcl] using h.k3
+  have h6m : K6 m := by simpa [K6, m_dl, m_dr, m_cl, hcl] using h.k6
+  rw [finishPhase_eq, processError_spec, if_neg (by simp [m_cl]), if_pos m_ur, if_neg (by simp [how])]
+  apply upreset_branch c ar aq m hbm m_run m_cl how h3m h6m m_pd m_sr (by rw [m_ps, hps]; omega) (fun _ => by rw [m_ps]; exact hps)
+    (fun _ => by rw [m_ps]; exact hps) (by rw [m_st]; exact hlc) (by rw [m_rst]; exact hrst)
+    (by rw [m_ph, hp]; intro hh; cases hh)
+  · intro _ _; right; exact m_ge
+  · intro _; exact m_ge
+
+/-- phase `Retry`: the wake-up from `doRetry`'s back-off sleep -/
 theorem inv_work_retry (c : Cfg) (ar aq : Nat) (s : S) (h : Inv c ar aq s) (hrun : s.running = true)
     (hp : s.phase = .Retry) : Inv c ar aq (finishPhase c (doRetry c s)) := by
-  have x := retryCtx h hrun hp
+  rw [doRetry_eq]
+  by_cases hdt : s.direct = true
+  · rw [if_pos hdt]; exact inv_work_retry_direct c ar aq s h hrun hp hdt
+  rw [if_neg hdt]
+  simp only [Bool.not_eq_true] at hdt
+  have hup0 : s.up.isSome = true := by
+    have hcl := inv_not_cleaned h hrun
+    rw [(h.k26 hcl hp).2.2.2]; rfl
+  by_cases hex : s.globalExpired = true
+  · rw [if_pos (by simp [hex, hup0])]; exact inv_work_retry_expired c ar aq s h hrun hp hdt hex
+  rw [if_neg (by simp [hex])]
+  simp only [Bool.not_eq_true] at hex
+  have x := retryCtx h hrun hp hdt hex
   obtain ⟨hcl, how, hup, hrs, hlc0, hdead, hpt0, hure, hurr, hexp0, hps, hrst, hsr, hdir, hpd, hgl0⟩ := x
-  have harm : retryArmsGlobalWhenUnsent = true := by decide
   have hhdr : (snd s.trace).hdr = false := by rw [h.k2]; exact hrst
   have hglT : retryGt c s = true ∨ s.globalExpired = true := by
     unfold retryGt
-    cases hq : s.reqSent with
-    | false => left; simp [harm]
-    | true => simp only [harm, hq, Bool.not_true, Bool.and_false, Bool.false_eq_true, if_false]; exact hgl0 hq
+    cases hq : hasTimerObj s with
+    | false => left; simp
+    | true =>
+      simp only [Bool.not_true, Bool.false_eq_true, if_false]
+      simp only [hasTimerObj, Bool.and_eq_true] at hq
+      exact hgl0 hq.2
   have hgtm : s.global = true → retryGt c s = true := by
     intro hg; unfold retryGt; split
     · rfl
     · exact hg
-  unfold doRetry
+  unfold doRetryBody
   by_cases hhg : s.hostsGone = true
   · -- no host can be chosen any more: local reply 502 (unless the global timer fired meanwhile)
     rw [if_pos hhg]
-    simp only
+    simp only [hup, if_true]
     generalize hm : cleanUp c (sendHijack { s with setupRetry := false } NoHealthUpstreamCode false) = m
     have hcu := cleanUp_facts c (sendHijack { s with setupRetry := false } NoHealthUpstreamCode false)
     rw [hm] at hcu
@@ -232,9 +325,6 @@ theorem inv_work_retry (c : Cfg) (ar aq : Nat) (s : S) (h : Inv c ar aq s) (hrun
       intro _; right; exact ⟨m_resp, Or.inl hlcm⟩
   · rw [if_neg hhg]
     simp only
-    have e_sp : ∀ (z : S), (if (retryArmsGlobalWhenUnsent && !z.reqSent) = true then onUpstreamRequestSent c z
-        else setupPerReqTimeout c z).perTry = (z.perTry || (if (retryArmsGlobalWhenUnsent && !z.reqSent) = true then (z.up.isSome && !c.oneway && c.tryTimeout) else c.tryTimeout)) := by
-      intro z; split <;> simp [onUpstreamRequestSent, setupPerReqTimeout]
     by_cases hpdn : processDone s = true
     · -- a reset is pending: nothing is sent, only the timers are armed; `processError` handles the reset
       have hflag : s.upReset = true ∨ s.downReset = true := by
@@ -246,19 +336,19 @@ theorem inv_work_retry (c : Cfg) (ar aq : Nat) (s : S) (h : Inv c ar aq s) (hrun
           let s := upAppendHeaders c s (!c.hasData && !c.hasTrailers);
           let s := if c.hasData = true then upAppendData s (!c.hasTrailers) else s;
           let s := if c.hasTrailers = true then upAppendTrailers s else s;
-          let s := if (retryArmsGlobalWhenUnsent && !s.reqSent) = true then onUpstreamRequestSent c s else setupPerReqTimeout c s;
+          let s := if (!(hasTimerObj s)) = true then onUpstreamRequestSent c s else setupPerReqTimeout c s;
           ({ s with reqSent := true, recvDone := true } : S)) =
           retried s (some none) s.streams s.requests s.upActive s.trace s.failNext s.upReset s.resetReason s.notify
-            (retryPt c s) (retryGt c s) (retryGg s) := by
+            (retryPt c s) (retryGt c s) (retryGg s) (retryGo s) := by
         have hp1 : processDone ({ s with up := some none, setupRetry := false } : S) = true := hpdn
         simp only [upAppendHeaders, hp1, if_true]
         have d1 : ∀ e, dataTrace ({ s with up := some none, setupRetry := false } : S) e = s.trace := fun e => dataTrace_done _ e hp1
         cases hd : c.hasData <;> cases ht : c.hasTrailers <;>
           simp [upAppendData, upAppendTrailers, d1, dataTrace_done, processDone, hpdn, retried, retryPt, retryGt, retryGg,
-            onUpstreamRequestSent, setupPerReqTimeout, harm, how] <;>
-          cases hq : s.reqSent <;> simp [hq]
+            retryGo, onUpstreamRequestSent, setupPerReqTimeout, how] <;>
+          cases hq : s.reqSent <;> cases hgo : s.gtObj <;> cases hgl1 : s.global <;> simp [hasTimerObj, hq, hgo, hgl1]
       rw [e]
-      apply finish_retried c ar aq s h hrun hp (retryCtx h hrun hp)
+      apply finish_retried c ar aq s h hrun hp (retryCtx h hrun hp hdt hex)
       · refine ⟨h.k10, h.k11, ?_⟩
         rw [K14, streamsOk_iff]
         have := (streamsOk_iff s).mp h.k14
@@ -277,10 +367,13 @@ theorem inv_work_retry (c : Cfg) (ar aq : Nat) (s : S) (h : Inv c ar aq s) (hrun
         have hfwd : fwdPhase s.phase = true := by simp [hp, fwdPhase]
         rcases h.k18 hcl hfwd with ⟨ho, _, _⟩ | hm
         · rw [how] at ho; cases ho
-        · apply hm.2.2.1
-          rcases hh with hh | hh
-          · exact Or.inr (Or.inl hh)
-          · exact Or.inr (Or.inr hh)
+        · have hx : s.urr = true ∨ s.upReset = true ∨ s.downReset = true := by
+            rcases hh with hh | hh
+            · exact Or.inr (Or.inl hh)
+            · exact Or.inr (Or.inr hh)
+          rcases hm.2.2.1 hx with h1 | h1
+          · exact h1
+          · rw [hex] at h1; exact absurd h1.2.1 (by decide)
       · intro hn
         have := h.k28 hcl hn
         rcases this with hh | hh | hh
@@ -310,21 +403,21 @@ theorem inv_work_retry (c : Cfg) (ar aq : Nat) (s : S) (h : Inv c ar aq s) (hrun
             let s := upAppendHeaders c s (!c.hasData && !c.hasTrailers);
             let s := if c.hasData = true then upAppendData s (!c.hasTrailers) else s;
             let s := if c.hasTrailers = true then upAppendTrailers s else s;
-            let s := if (retryArmsGlobalWhenUnsent && !s.reqSent) = true then onUpstreamRequestSent c s else setupPerReqTimeout c s;
+            let s := if (!(hasTimerObj s)) = true then onUpstreamRequestSent c s else setupPerReqTimeout c s;
             ({ s with reqSent := true, recvDone := true } : S)) =
             retried s (some none) (s.streams ++ [(⟨false, false, false, false⟩ : Stream)]) s.requests s.upActive
               (s.trace ++ [Ev.uf s.streams.length f]) (s.failNext.drop 1) true (failReason f) true
-              (retryPt c s) (retryGt c s) (retryGg s) := by
+              (retryPt c s) (retryGt c s) (retryGg s) (retryGo s) := by
           have e1 := upAppendHeaders_fail c ({ s with up := some none, setupRetry := false } : S) (!c.hasData && !c.hasTrailers) f hp1 hout
           simp only [e1]
           have d1 : ∀ (z : S) e, z.upReset = true → dataTrace z e = z.trace := by
             intro z e hz; exact dataTrace_done z e (by simp [processDone, hz])
           cases hd : c.hasData <;> cases ht : c.hasTrailers <;>
             simp [upOnResetStream, hnf.1, upAppendData, upAppendTrailers, d1, retried, retryPt, retryGt, retryGg,
-              onUpstreamRequestSent, setupPerReqTimeout, harm, how] <;>
-            cases hq : s.reqSent <;> simp [hq]
+              retryGo, onUpstreamRequestSent, setupPerReqTimeout, how] <;>
+            cases hq : s.reqSent <;> cases hgo : s.gtObj <;> cases hgl1 : s.global <;> simp [hasTimerObj, hq, hgo, hgl1]
         rw [e]
-        apply finish_retried c ar aq s h hrun hp (retryCtx h hrun hp)
+        apply finish_retried c ar aq s h hrun hp (retryCtx h hrun hp hdt hex)
         · apply ledger_append c aq s _ (some none) s.requests s.upActive ⟨h.k10, h.k11, h.k14⟩ hdead
           · intro hh; cases hh
           · intro k hk; cases hk
@@ -347,14 +440,14 @@ theorem inv_work_retry (c : Cfg) (ar aq : Nat) (s : S) (h : Inv c ar aq s) (hrun
             let s := upAppendHeaders c s (!c.hasData && !c.hasTrailers);
             let s := if c.hasData = true then upAppendData s (!c.hasTrailers) else s;
             let s := if c.hasTrailers = true then upAppendTrailers s else s;
-            let s := if (retryArmsGlobalWhenUnsent && !s.reqSent) = true then onUpstreamRequestSent c s else setupPerReqTimeout c s;
+            let s := if (!(hasTimerObj s)) = true then onUpstreamRequestSent c s else setupPerReqTimeout c s;
             ({ s with reqSent := true, recvDone := true } : S)) =
             retried s (some (some s.streams.length)) (s.streams ++ [(⟨true, true, true, true⟩ : Stream)])
               (Gen.Resource.increase c.maxRequests s.requests) (s.upActive + 1)
               (((s.trace ++ [Ev.un s.streams.length]) ++ [Ev.uh s.streams.length (!c.hasData && !c.hasTrailers)]) ++
                 (if c.hasData then [Ev.ud s.streams.length (!c.hasTrailers)] else []) ++
                 (if c.hasTrailers then [Ev.ut s.streams.length] else []))
-              (s.failNext.drop 1) s.upReset s.resetReason s.notify (retryPt c s) (retryGt c s) (retryGg s) := by
+              (s.failNext.drop 1) s.upReset s.resetReason s.notify (retryPt c s) (retryGt c s) (retryGg s) (retryGo s) := by
           have e1 := upAppendHeaders_ok c ({ s with up := some none, setupRetry := false } : S) (!c.hasData && !c.hasTrailers) hp1 hout
           simp only [e1]
           have d2 : ∀ (z : S) e, z.procDone = false → z.downReset = false → z.upReset = false →
@@ -363,10 +456,10 @@ theorem inv_work_retry (c : Cfg) (ar aq : Nat) (s : S) (h : Inv c ar aq s) (hrun
             exact dataTrace_live z e _ (by simp [processDone, h1, h2, h3]) (by simp [curStream, h4])
           cases hd : c.hasData <;> cases ht : c.hasTrailers <;>
             simp [upAppendData, upAppendTrailers, d2, hpd, hnf.1, hnf.2, retried, retryPt, retryGt, retryGg,
-              onUpstreamRequestSent, setupPerReqTimeout, harm, how] <;>
-            cases hq : s.reqSent <;> simp [hq]
+              retryGo, onUpstreamRequestSent, setupPerReqTimeout, how] <;>
+            cases hq : s.reqSent <;> cases hgo : s.gtObj <;> cases hgl1 : s.global <;> simp [hasTimerObj, hq, hgo, hgl1]
         rw [e]
-        apply finish_retried c ar aq s h hrun hp (retryCtx h hrun hp)
+        apply finish_retried c ar aq s h hrun hp (retryCtx h hrun hp hdt hex)
         · apply ledger_append c aq s _ _ _ _ ⟨h.k10, h.k11, h.k14⟩ hdead
           · intro _; exact ⟨rfl, rfl⟩
           · intro k hk; simp at hk; omega
